@@ -36,6 +36,19 @@ def integer_pose(rng, pts, s):
     return geom.Pose(s=s, k=Fr(1), M=M, t=t)
 
 
+def p5_pose(rng, pts, s=1):
+    """a 3-4-5 rotation about a coordinate axis: axis-aligned faces get normals with exactly one zero component (not axis-aligned)"""
+    from fractions import Fraction as Fr
+    for _ in range(10):
+        M = geom.matmul(rng.choice(geom.SIGNED_PERMS), geom.P5)
+        k = rng.choice((Fr(1, 2), Fr(1, 4), Fr(1, 4)))
+        t = tuple(Fr(rng.randint(-8, 8), 4) for _ in range(3))
+        p = geom.Pose(s=s, k=k, M=M, t=t, norm=5)
+        if p.maxabs(pts) <= 16:
+            return p
+    return geom.Pose(s=s, k=Fr(1, 8), M=geom.matmul(rng.choice(geom.SIGNED_PERMS), geom.P5), norm=5)
+
+
 def poses_for(case_objs, rng, n_extra, s=1):
     base = geom.Pose(s=s)
     out = [base]
